@@ -285,12 +285,15 @@ pub fn profile_for(prop: &str, rng: &mut Rng, cfg: BuildCfg) -> Profile {
     // every property's swarm has fault-injecting members: "reachable by any history" includes the
     // states left behind by a caught panic (Clone / Drop panics in clone, clone_from, dynamic
     // destroy); fault-free members stay the large majority
-    if matches!(prop, "C01" | "C02" | "C03" | "C08" | "C09" | "C12" | "C13" | "C17") && rng.chance(1, 5) {
+    if matches!(prop, "C01" | "C02" | "C03" | "C06" | "C07" | "C08" | "C09" | "C12" | "C13" | "C17") && rng.chance(1, 5) {
         f.clone_panic = true;
         f.drop_panic = true;
         f.fork = true;
         w[OPK_CLONE] += 2;
         w[OPK_SWITCH] += 3;
+        if matches!(prop, "C06" | "C07" | "C02") {
+            f.closure_panic = true;
+        }
     }
     if f.fork && matches!(prop, "C03" | "C09" | "C13" | "C01") {
         w[OPK_SPAWN] = 2;
